@@ -72,6 +72,16 @@ Proof.
   - apply bval_fmt_b.
 Qed.
 
+(* both directions at once, in the model's own vocabulary (val2 = int(s, 2)) *)
+Lemma fmt_b_val2_inverse w : 0 < w ->
+  (forall x : N, (x < 2 ^ N.of_nat w)%N -> length (fmt_b w x) = w /\ val2 (fmt_b w x) = x) /\
+  (forall s : list bool, length s = w -> (val2 s < 2 ^ N.of_nat w)%N /\ fmt_b w (val2 s) = s).
+Proof.
+  intros Hw. split.
+  - intros x Hx. split; [exact (fmt_b_length w x Hw Hx) | exact (bval_fmt_b w x)].
+  - intros s Ls. split; [rewrite <- Ls; exact (bval_bound s) | exact (fmt_b_bval w s Hw Ls)].
+Qed.
+
 (* ---- bits_dup ---- *)
 Lemma bits_dup_bits k b : 0 < k -> length b = k ->
   fmt_b (2 * k) (bval b * (2 ^ N.of_nat k + 1))%N = b ++ b.
